@@ -108,7 +108,14 @@ def gl_nodes(bounds, n):
 def main(tier):
     ck = common.Check('C12', tier)
     mac = refdata.Macros()
-    RE2, MEC2, PI = float(mac.all['RE2']), float(mac.all['MEC2']), float(mac.all['PI'])
+    # mc2, r_e^2 and pi of the relations are the DOCUMENTED constants (CODATA 2010, refdata.CONSTANTS), not whatever the header of the tree under
+    # observation evaluates to: every relation between the library's own functions still holds when the header's electron mass is off
+    for name in ('RE2', 'MEC2', 'PI'):
+        have, gold = mac.all.get(name), refdata.CONSTANTS[name]
+        if have is None or float(have) != gold:
+            ck.violation('c12:constant:%s' % name, 'the public header defines %s = %r, the documented value is %r (relative difference %.3g)' % (
+                name, have, gold, abs(float(have) - gold) / gold if have is not None else float('nan')), dict(macro=name, header=have, documented=gold))
+    RE2, MEC2, PI = refdata.CONSTANTS['RE2'], refdata.CONSTANTS['MEC2'], refdata.CONSTANTS['PI']
     rng = np.random.default_rng(common.seed())
     quick = tier == 'quick'
     L = execlib.Lib('shipped')
